@@ -361,6 +361,24 @@ func (e *Engine) callEffect(c *ssa.CallCommon, res *effSet) {
 		res.add(e.effects(v.Fn.(*ssa.Function)))
 		return
 	}
+	// call through a package-level func variable with a `var:NAME` contract
+	if u, ok := c.Value.(*ssa.UnOp); ok {
+		if g, ok := u.X.(*ssa.Global); ok && g.Pkg != nil {
+			if con := e.cs.ByKey[g.Pkg.Pkg.Path()+"::var:"+g.Name()]; con != nil && (con.HasAssigns || con.Pure) {
+				for _, a := range con.Assigns {
+					for _, k := range e.resolveAssign(con, a, nil) {
+						if k == "*" {
+							res.setAll()
+							res.why = "assigns * of var:" + g.Name()
+						} else {
+							res.keys[k] = true
+						}
+					}
+				}
+				return
+			}
+		}
+	}
 	// func value: named func type with a contract?
 	if n, ok := types.Unalias(c.Value.Type()).(*types.Named); ok {
 		con, _ := e.ifaceContract(n, nil)
